@@ -90,4 +90,10 @@ ConfState(inst, s, st) ==
   /\ ToSetU(st.visited) = s.visited
 
 PadAction(inst) == 0
+\* forced first move of multi-start rollout / beam j = 0, 1, ... (rl4co.utils.ops.select_start_nodes, branch "op", since the
+\* fix "OP multi-start nodes are always feasible first moves"): the feasible customers in index order, cycling through
+\* them when there are fewer than the number of starts; the depot when no customer can be visited at all
+FeasibleStarts(inst) == {c \in Cust(inst) : c \in Mask(inst, Init0(inst))}
+NthFeasible(inst, k) == CHOOSE c \in FeasibleStarts(inst) : Cardinality({d \in FeasibleStarts(inst) : d < c}) = k
+StartNode(inst, j) == IF FeasibleStarts(inst) = {} THEN 0 ELSE NthFeasible(inst, j % Cardinality(FeasibleStarts(inst)))
 =============================================================================
